@@ -179,11 +179,15 @@ def worker(args):
     viol, stats, inconc = [], collections.Counter(), []
     for rq, info in crashes:
         viol.append(("crash " + vf.crash_sig(info), "sanitizer report / abnormal exit of the client around a connection loss", {"stderr": info["stderr"][-4000:]}))
-    for out, (name, cuts, meta, K, resumable) in zip(outs, metas):
+    for idx_, (out, (name, cuts, meta, K, resumable)) in enumerate(zip(outs, metas)):
         if not out:
             continue
         stats["runs"] += 1
-        err = judge(name, cuts, out, meta, K, resumable, viol, stats)
+        def jf(j_, vv, ss, name=name, cuts=cuts, meta=meta, K=K, resumable=resumable):
+            return judge(name, cuts, {"journal": j_}, meta, K, resumable, vv, ss)
+        v_, st_, err = wire.judged(binary, cases[idx_], out, jf)
+        viol += v_
+        stats.update(st_)
         if err:
             inconc.append("%s %s: %s" % (name, cuts, err))
     return viol, dict(stats), inconc
